@@ -1,7 +1,7 @@
 SPEC_PART = dict(
     props_file="C17_tdigest",
     legs=[dict(family="tdigest", focus="extremes", oracles=["no_panic", "prop_ok", "c15_ok"], tie_oracles=["tie_ok"], profiles=["debug", "release"],
-               mask=[0, 1, 7, 8, 9, 10, 14, 15, 17, 19, 21], n_quick=36, n_thorough=120, shards_thorough=8, panic_is_violation=True)],   # thorough: a driver holds ~3 GB (k = 65535, exact rationals): 8 at a time
+               mask=[0, 1, 7, 8, 9, 10, 14, 15, 17, 19, 21], n_quick=36, n_thorough=60, shards_thorough=8, panic_is_violation=True)],   # thorough: a driver holds ~3 GB (k = 65535, exact rationals): 8 at a time
     trusted=["tdigest: panic sites modelled as Stuck: TDigestMut::new(k < 10), assert!(k >= 10) of make on the readers' path, the "
              "assert_ne! / usize underflow sites of rank, unreachable!() in cdf, check_split_points; the merge pass (do_merge) is a "
              "relation, its sites (buffer[0], Centroid::add's checked weight and finite-mean debug assertion, the u64 weight counter, "
